@@ -254,6 +254,10 @@ class GeckoAsyncSpaMan(ABC, AsyncTasks):
         if self._spa is not None:
             await self._spa.disconnect()
             self._spa = None
+        if self._facade is not None:
+            # The connection may have completed while the handlers above were
+            # suspended, its facade has to be disconnected before it is dropped
+            await self._facade.disconnect()
         self._facade = None
         # The handlers above may have been suspended for a while, and a
         # discovery may have completed in the meantime. A reset leaves no
